@@ -114,6 +114,16 @@ def delta_check(toks):
             cfg = after
             i = k
         i += 1
+    # a macrostep that took microsteps ends with a stable-configuration notice before the engine idles or
+    # goes on to the next external event: between a microstep bracket and the next RET:IDLE there is a STABLE
+    seen_ms = False
+    for idx, t in enumerate(toks):
+        if t == '}MS':
+            seen_ms = True
+        elif t == 'STABLE':
+            seen_ms = False
+        elif t == 'RET:IDLE' and seen_ms:
+            return 'macrostep completed (engine idle) without a stable-configuration notice at token %d' % idx
     # one STABLE per MACROSTEPPED, directly before it
     for idx, t in enumerate(toks):
         if t == 'RET:MACROSTEPPED' and (idx == 0 or toks[idx - 1] != 'STABLE'):
